@@ -103,6 +103,9 @@ func c20Lifecycle(r *ev.Run, imgA, imgB []byte) {
 			scen = append(scen, []part{{pa, la}, {pb, lists[0]}, {pa, lists[1]}})
 		}
 	}
+	// the file behind a path is replaced (rename) while handles on the old file are open: a handle keeps reading
+	// the file it opened; a handle opened afterwards reads the new one. "path" is not "file".
+	c20Replace(r, dir, imgA, imgB)
 	total := 0
 	for _, parts := range scen {
 		// solo results
@@ -149,4 +152,94 @@ func c20Lifecycle(r *ev.Run, imgA, imgB []byte) {
 		rec(nil, make([]int, len(parts)))
 	}
 	r.Set("lifecycle_interleavings", total)
+}
+
+// c20Replace: participants A and B {open, select, select, close} on one path, participant R {replace the file
+// behind the path by another database (write to a temporary name, rename over it)}; every interleaving; every
+// select must return the content of the file its handle opened.
+func c20Replace(r *ev.Run, dir string, imgA, imgB []byte) {
+	path := filepath.Join(dir, "replaced.sqlite")
+	tmp := filepath.Join(dir, "replaced.tmp")
+	// what each version answers
+	var sel [2]string
+	for v, img := range [][]byte{imgA, imgB} {
+		os.WriteFile(path, img, 0o644)
+		h, err := sqlittle.Open(path)
+		if err != nil {
+			r.Harness("c20 replace: %v", err)
+			return
+		}
+		sel[v] = lifeSelect(h)
+		h.Close()
+		os.Remove(path)
+	}
+	if sel[0] == sel[1] {
+		r.Harness("c20 replace: the two versions answer the same")
+		return
+	}
+	steps := [][]string{{"open", "select", "select", "close"}, {"open", "select", "close", "open", "select", "close"}, {"replace"}}
+	n := 0
+	var rec func(order []int, pos []int)
+	rec = func(order []int, pos []int) {
+		done := true
+		for p := range steps {
+			if pos[p] < len(steps[p]) {
+				done = false
+				pos[p]++
+				rec(append(order, p), pos)
+				pos[p]--
+			}
+		}
+		if !done {
+			return
+		}
+		n++
+		r.Eval(1)
+		r.Trans(len(order))
+		r.NontrivialN(1)
+		os.Remove(path)
+		os.WriteFile(path, imgA, 0o644)
+		version := 0
+		hs := make([]*sqlittle.DB, 2)
+		opened := make([]int, 2)
+		at := make([]int, len(steps))
+		var trace []string
+		for _, p := range order {
+			st := steps[p][at[p]]
+			at[p]++
+			switch st {
+			case "replace":
+				os.WriteFile(tmp, imgB, 0o644)
+				os.Rename(tmp, path)
+				version = 1
+				trace = append(trace, "R:replace")
+			case "open":
+				h, err := sqlittle.Open(path)
+				if err != nil {
+					r.Violation("C20:replace:open", fmt.Sprintf("after %v: Open: %v", trace, err), map[string]interface{}{"family": "file-replaced", "order": fmt.Sprint(order)})
+					return
+				}
+				hs[p], opened[p] = h, version
+				trace = append(trace, fmt.Sprintf("%d:open(v%d)", p, version))
+			case "select":
+				got := lifeSelect(hs[p])
+				trace = append(trace, fmt.Sprintf("%d:select", p))
+				if got != sel[opened[p]] {
+					r.Violation("C20:replace:wrong-file", fmt.Sprintf("%v: participant %d opened version %d of the file but its select answers %s; that version answers %s", trace, p, opened[p], clipS(got, 120), clipS(sel[opened[p]], 120)), map[string]interface{}{"family": "file-replaced", "order": fmt.Sprint(order), "trace": trace})
+					for _, h := range hs {
+						if h != nil {
+							h.Close()
+						}
+					}
+					return
+				}
+			case "close":
+				hs[p].Close()
+				hs[p] = nil
+				trace = append(trace, fmt.Sprintf("%d:close", p))
+			}
+		}
+	}
+	rec(nil, make([]int, len(steps)))
+	r.Set("file_replaced_interleavings", n)
 }
